@@ -775,7 +775,7 @@ def run(ctx: Ctx) -> None:
         _share8(ctx, "C08", "C09.R26", ['C08.R15'], "every external path an evaluation loads is answered by fetch_paths (one mapping that lives across the loop, returned after it): a reader of two kept paths is not refused as 'loaded before it is produced'")
     from .common import replace_result_used as _rru
     rep.rule("C09.R27", "a path produced by dds.keep is recorded by BOTH analysis passes: the record that `_replace(store_path=..)` builds is kept (NamedTuple._replace returns a new record; a call whose result is dropped records nothing)")
-    rep.floor("C09.R27", _rru(ctx, "C09.R27"), 4)
+    rep.floor("C09.R27", _rru(ctx, "C09.R27"), 2)
 
 
 def _assigned(f: Func) -> set:
